@@ -1482,4 +1482,101 @@ theorem exprSem_xor {inputs : List String} {ρ : Env} {σ0 : FState} {r : String
       · exact h.elim
     · rw [hc4, hv, hcf, hz]; simp [BExp.eval]
 
+/-! ### the induction -/
+
+theorem distinct_tail {e : BExp} {l : List BExp} (h : Distinct (e :: l)) : Distinct l :=
+  (List.pairwise_cons.mp h).2
+
+theorem distinct_cons_list {e : BExp} {l : List BExp} (h : Distinct (e :: compSubsList l)) :
+    Distinct (compSubsList l) := (List.pairwise_cons.mp h).2
+
+theorem distinct_split {a : BExp} {as : List BExp} (h : Distinct (compSubsList (a :: as))) :
+    Distinct (compSubs a) ∧ Distinct (compSubsList as) ∧
+      ∀ x ∈ compSubs a, ∀ y ∈ compSubsList as, (x == y) = false := by
+  unfold Distinct at h
+  rw [compSubsList, List.pairwise_append] at h
+  exact h
+
+theorem overInputs_strip {inputs : List String} {a : BExp} (h : overInputs inputs a = true) :
+    overInputs inputs (stripNot a) = true := by
+  cases a <;> simp_all [stripNot, overInputs]
+
+theorem distinct_strip {a : BExp} (h : Distinct (compSubs a)) : Distinct (compSubs (stripNot a)) := by
+  cases a with
+  | not i =>
+    show Distinct (compSubs i)
+    exact distinct_tail (e := .not i) (by simpa [compSubs] using h)
+  | _ => exact h
+
+mutual
+/-- **`compileExpr` on the fragment**: the result qubit holds the value of the expression (or the
+accumulator gets it xor-ed in), nothing else that existed before changes -/
+theorem exprSem {inputs : List String} {ρ : Env} {σ0 : FState} {r : String} (amb : Amb inputs σ0 r) :
+    ∀ e : BExp, overInputs inputs e = true → Distinct (compSubs e) → ExprSem inputs ρ σ0 r e
+  | .sym n => fun hov _ => exprSem_sym n (by simpa [overInputs] using hov)
+  | .not a => fun hov hd =>
+    have hov' : overInputs inputs a = true := by simpa [overInputs] using hov
+    exprSem_not amb hov' (exprSem amb a hov' (distinct_tail (by simpa [compSubs] using hd)))
+  | .and args => fun hov hd =>
+    exprSem_and amb (argsSem amb args (by simpa [overInputs] using hov)
+      (distinct_cons_list (by simpa [compSubs] using hd)))
+  | .or args => fun hov hd =>
+    exprSem_or amb (argsSem amb args (by simpa [overInputs] using hov)
+      (distinct_cons_list (by simpa [compSubs] using hd)))
+  | .xor args => fun hov hd =>
+    exprSem_xor amb (xorSem amb args (by simpa [overInputs] using hov)
+      (distinct_cons_list (by simpa [compSubs] using hd)))
+  | .ff => fun hov _ => by simp [overInputs] at hov
+  | .tt => fun hov _ => by simp [overInputs] at hov
+  | .ite _ _ _ => fun hov _ => by simp [overInputs] at hov
+  | .imp _ _ => fun hov _ => by simp [overInputs] at hov
+theorem argsSem {inputs : List String} {ρ : Env} {σ0 : FState} {r : String} (amb : Amb inputs σ0 r) :
+    ∀ as : List BExp, overInputsList inputs as = true → Distinct (compSubsList as) →
+      ArgsSem inputs ρ σ0 r as
+  | [] => fun _ _ => argsSem_nil (r := r)
+  | a :: as => fun hov hd =>
+    have hov' : overInputs inputs a = true ∧ overInputsList inputs as = true := by
+      simpa [overInputsList] using hov
+    have hs := distinct_split hd
+    argsSem_cons amb (exprSem amb a hov'.1 hs.1) (argsSem amb as hov'.2 hs.2.1) hs.2.2
+theorem xorSem {inputs : List String} {ρ : Env} {σ0 : FState} {r : String} (amb : Amb inputs σ0 r) :
+    ∀ as : List BExp, overInputsList inputs as = true → Distinct (compSubsList as) →
+      XorSem inputs ρ σ0 r as
+  | [] => fun _ _ => xorSem_nil (r := r)
+  | .not i :: as => fun hov hd =>
+    have hov' : overInputs inputs (.not i) = true ∧ overInputsList inputs as = true := by
+      simpa [overInputsList] using hov
+    have hs := distinct_split hd
+    xorSem_cons amb hov'.1 (exprSem amb (.not i) hov'.1 hs.1)
+      (exprSem amb i (overInputs_strip hov'.1) (distinct_strip hs.1)) (xorSem amb as hov'.2 hs.2.1) hs.2.2
+  | .sym n :: as => fun hov hd =>
+    have hov' : overInputs inputs (.sym n) = true ∧ overInputsList inputs as = true := by
+      simpa [overInputsList] using hov
+    have hs := distinct_split hd
+    xorSem_cons amb hov'.1 (exprSem amb (.sym n) hov'.1 hs.1) (exprSem amb (.sym n) hov'.1 hs.1)
+      (xorSem amb as hov'.2 hs.2.1) hs.2.2
+  | .xor l :: as => fun hov hd =>
+    have hov' : overInputs inputs (.xor l) = true ∧ overInputsList inputs as = true := by
+      simpa [overInputsList] using hov
+    have hs := distinct_split hd
+    xorSem_cons amb hov'.1 (exprSem amb (.xor l) hov'.1 hs.1) (exprSem amb (.xor l) hov'.1 hs.1)
+      (xorSem amb as hov'.2 hs.2.1) hs.2.2
+  | .and l :: as => fun hov hd =>
+    have hov' : overInputs inputs (.and l) = true ∧ overInputsList inputs as = true := by
+      simpa [overInputsList] using hov
+    have hs := distinct_split hd
+    xorSem_cons amb hov'.1 (exprSem amb (.and l) hov'.1 hs.1) (exprSem amb (.and l) hov'.1 hs.1)
+      (xorSem amb as hov'.2 hs.2.1) hs.2.2
+  | .or l :: as => fun hov hd =>
+    have hov' : overInputs inputs (.or l) = true ∧ overInputsList inputs as = true := by
+      simpa [overInputsList] using hov
+    have hs := distinct_split hd
+    xorSem_cons amb hov'.1 (exprSem amb (.or l) hov'.1 hs.1) (exprSem amb (.or l) hov'.1 hs.1)
+      (xorSem amb as hov'.2 hs.2.1) hs.2.2
+  | .ff :: as => fun hov _ => by simp [overInputsList, overInputs] at hov
+  | .tt :: as => fun hov _ => by simp [overInputsList, overInputs] at hov
+  | .ite _ _ _ :: as => fun hov _ => by simp [overInputsList, overInputs] at hov
+  | .imp _ _ :: as => fun hov _ => by simp [overInputsList, overInputs] at hov
+end
+
 end QV.Compiler
